@@ -314,14 +314,22 @@ pub fn run(args: &Args) -> i32 {
             bases.push((label.to_string(), b, label.starts_with("zipcrypto")));
         }
     }
-    ctx.bound("C_append", json!({"bases": bases.iter().map(|b| b.0.clone()).collect::<Vec<_>>(), "rounds": 1, "appended": "each composite, or nothing", "terminators": 2}));
+    ctx.bound("C_append", json!({"bases": bases.iter().map(|b| b.0.clone()).collect::<Vec<_>>(), "rounds": 1, "appended": "each composite, or nothing", "comment": ["keep", "shorter", "longer"], "terminators": 2}));
     let nb = bases.len() as u64;
-    let s = par_for(nb * (n + 1) * 2, 4, |i, st| {
+    let s = par_for(nb * (n + 1) * 2 * 3, 4, |i, st| {
         let finish = i % 2 == 0;
-        let j = i / 2;
+        let cm = (i / 2) % 3;
+        let j = i / 6;
         let b = &bases[(j / (n + 1)) as usize];
         let k = (j % (n + 1)) as usize;
         let mut calls = vec![];
+        // the base comment has 12 bytes: keep it, replace it by a shorter one (the new end records end before the old
+        // end of the stream) or by a longer one
+        match cm {
+            1 => calls.push(Call::SetComment(b"s".to_vec())),
+            2 => calls.push(Call::SetComment(b"a longer replacement comment".to_vec())),
+            _ => {}
+        }
         let mut uses_pw = b.2;
         if k > 0 {
             calls.extend(comps[k - 1].1.iter().cloned());
